@@ -256,18 +256,21 @@ static void run_session(zcase *c, char *spec, zres *r) {
         char *f4 = strchr(f3, ':');
         if(f4) *f4++ = 0;
         if(k && r->nret < (int)sizeof(r->rets) - 1) r->rets[r->nret++] = '/';
-        if(f4 && strcmp(f4, "r") == 0) {
-            /* the client re-checks its file, as src/zck_dl.c does before downloading */
-            int rv = zck_find_valid_chunks(t.zck);
-            (void)rv;
-            zck_reset_failed_chunks(t.zck);
+        for(char *st = f4; st && *st; st++) {
+            if(*st == 'r') {
+                /* the client re-checks its file, as src/zck_dl.c does before downloading */
+                int rv = zck_find_valid_chunks(t.zck);
+                (void)rv;
+                zck_reset_failed_chunks(t.zck);
+            } else if(*st == 'e') {
+                zck_clear_error(t.zck);
+            }
         }
         zck_dl_reset(dl);
         zckRange *range = zck_get_missing_range(t.zck, -1);
         if(range == NULL) {
-            /* the context is in error state: a client cannot build another request; the session ends here */
+            /* the context is in error state: there is no request; whatever arrives must be refused cleanly */
             if(r->nret < (int)sizeof(r->rets) - 1) r->rets[r->nret++] = 'E';
-            break;
         }
         if(!zck_dl_set_range(dl, range)) { printf("BADCASE range\n"); exit(2); }
         char *hp[64]; unsigned char *hdr[64]; size_t hdrlen[64];
@@ -289,7 +292,7 @@ static void run_session(zcase *c, char *spec, zres *r) {
         for(int i = 0; i < nh; i++) free(hdr[i]);
         free(body); free(cuts);
         zck_dl_set_range(dl, NULL);
-        zck_range_free(&range);
+        if(range) zck_range_free(&range);
         sp += snprintf(snaps + sp, sizeof(snaps) - sp, "%s", k ? ";" : "");
         sp += vstring(c, &t, snaps + sp, sizeof(snaps) - sp);
     }
